@@ -152,7 +152,9 @@ func (dc *DomConverter) visitElementNodeHandler(node *html.Node) bool {
 	// content(e.g. text, image, video, or iframe).
 	switch tagName {
 	case "div", "section", "header",
-		"h1", "h2", "h3", "h4", "h5", "h6":
+		"h1", "h2", "h3", "h4", "h5", "h6",
+		"p", "article", "aside", "main", "nav", "footer", "address", "hr",
+		"dl", "dt", "dd", "details", "dialog":
 		if isElementWithoutContent(node) {
 			// These are block elements: even without content they separate the text
 			// before them from the text after them, like the other skipped blocks.
